@@ -6,7 +6,8 @@ numpy's global stream at a point where, on every path, the stream was just resee
 parameter; (R2) the reseed is guarded by `is not None`, never by truthiness (seed 0); (R3) the seed
 expression is the parameter itself (no `or` fallback, constant, clock); (R4) a generator is built from the
 seed at most once per call, never in a loop; (R5) with random_state=None the sampling APIs never seed
-anything (consecutive unseeded calls differ).  The effect summary "reads no random state other than a
+anything (consecutive unseeded calls differ); (R7) no seeded API writes into its arguments, the model or module
+state (ownership analysis), so a repeated call starts from the same data.  The effect summary "reads no random state other than a
 stream it (re)seeds from its own argument" is history independent by construction.
 """
 from .common import *
@@ -87,6 +88,38 @@ def rng_rules(rep, prog, f, seed_param="random_state", unseeded_live=False):
 PASS_ = "PASS"
 
 
+def args_intact(rep, prog, O, f):
+    """(R7) a seeded API that writes into its own arguments or (outside __init__) into the model hands the *next* identical call
+    different inputs: `f(x, seed); f(x, seed)` would differ although arguments and seed are the same"""
+    from .. import own as OW
+    try:
+        summ, obj = OW.analyse_entry(O, f)
+    except Inconclusive as e:
+        rep.unk("R7.inputs-intact", fwhere(f), "ownership analysis left the modelled fragment: %s" % e.why)
+        return
+    bad = False
+    for w in summ.effects:
+        if not isinstance(w, OW.Write):
+            continue
+        for l in sorted(OW.caller_owned(w.labels), key=str):
+            kind, name = OW.strip_maybe(l)
+            if kind in ("S", "SE") and f.name == "__init__":
+                continue
+            if kind not in ("P", "PE", "S", "SE", "G"):
+                continue
+            if (w.site[0], name) in (("sempler.utils.cartesian", "out"),):
+                continue
+            via = (" (via %s)" % " -> ".join("%s:%d" % c for c in w.chain)) if w.chain else ""
+            rep.bad("R7.inputs-intact", {"file": w.site[3], "line": w.site[1], "function": w.site[0], "construct": w.site[2]},
+                    "%s %s %s `%s` of the seeded API %s%s: a second call with the same arguments and seed starts from different data" % (
+                        w.how, "may write" if l[0].endswith("?") else "writes",
+                        {"P": "parameter", "PE": "an element of parameter", "S": "model attribute", "SE": "an element of model attribute", "G": "module-level object"}[kind],
+                        name, f.qname, via))
+            bad = True
+    if not bad:
+        rep.ok("R7.inputs-intact", fwhere(f), "%s leaves its arguments, the model and module state untouched" % f.name)
+
+
 def run(prog, rep, tier):
     apis = [f for f in prog.funcs.values() if "random_state" in f.params and f.module.name.startswith("sempler.")
             and f.module.name != "sempler.semi"]
@@ -95,12 +128,16 @@ def run(prog, rep, tier):
         if q not in have:
             raise AnchorMissing("API %s with a random_state parameter not found" % q)
     total = 0
+    from .. import own as OW
+    O = OW.Own(prog)
     for f in sorted(apis, key=lambda f: f.qname):
         eff = rng_rules(rep, prog, f, unseeded_live=f.qname in UNSEEDED_LIVE)
         total += len(eff or [])
+        args_intact(rep, prog, O, f)
     rep.analysed["rng.apis"] = sorted(have)
     rep.analysed["rng.effects"] = total
     rep.require_count("RNG.api", 10)
     rep.require_count("R1", 16)
+    rep.require_count("R7", 10)
     rep.assume("numpy generators and the legacy global stream are deterministic functions of their seed")
     rep.assume("user supplied callables (noise distributions, assignments) may draw from numpy's global stream only")
